@@ -34,6 +34,9 @@ pub enum ROp {
     Simple(usize, usize),
     Blob(usize),
     BogusBlob,
+    /// a descriptor that starts 16 bytes inside the first blob and claims 2^32 bytes: when the
+    /// payload there looks like a blob section header the read runs into the end of the file
+    EofBlob,
     Xml,
     Pointclouds,
     Images,
@@ -51,6 +54,7 @@ impl ROp {
             ROp::Simple(c, k) => format!("simple(cloud {c}, {})", t(k)),
             ROp::Blob(b) => format!("blob({b})"),
             ROp::BogusBlob => "blob(bogus descriptor)".into(),
+            ROp::EofBlob => "blob(descriptor running past the end of the file)".into(),
             ROp::Xml => "xml".into(),
             ROp::Pointclouds => "pointclouds".into(),
             ROp::Images => "images".into(),
@@ -98,6 +102,9 @@ pub fn alphabet(nclouds: usize, nblobs: usize) -> Vec<ROp> {
         a.push(ROp::Blob(b));
     }
     a.push(ROp::BogusBlob);
+    if nblobs > 0 {
+        a.push(ROp::EofBlob);
+    }
     a.push(ROp::Xml);
     a.push(ROp::Pointclouds);
     a.push(ROp::Images);
@@ -194,6 +201,24 @@ pub fn exec(r: &mut E57Reader<Dev>, op: &ROp, blobs: &[Blob]) -> Outcome {
             let mut out = Vec::new();
             match r.blob(&Blob::new(52, 7), &mut out) {
                 Ok(n) => Outcome::Ok(explore::fnv(&out), n),
+                Err(e) => err_out(&e),
+            }
+        }
+        ROp::EofBlob => {
+            let Some(b) = blobs.first() else { return Outcome::Err("no blob".into()) };
+            struct Count(u64);
+            impl std::io::Write for Count {
+                fn write(&mut self, b: &[u8]) -> std::io::Result<usize> {
+                    self.0 += b.len() as u64;
+                    Ok(b.len())
+                }
+                fn flush(&mut self) -> std::io::Result<()> {
+                    Ok(())
+                }
+            }
+            let mut out = Count(0);
+            match r.blob(&Blob::new(b.offset + 16, 1 << 32), &mut out) {
+                Ok(n) => Outcome::Ok(out.0, n),
                 Err(e) => err_out(&e),
             }
         }
